@@ -47,6 +47,14 @@ type c11Run struct {
 	faultAt            map[string]map[int]bool
 	trace              []byte
 	lastActivity       time.Time
+	rejectSuffix       []string          // entities whose id ends like this are refused by the dataset sink, always
+	runOf              map[uint64]*c11Rec // goroutine id -> the run it is executing
+}
+
+type c11Rec struct {
+	id       string
+	start    time.Time
+	rejected string // a delivery of this run was refused because of this entity
 }
 
 func (r *c11Run) ev(format string, args ...any) {
@@ -104,7 +112,12 @@ func RunC11Scenario(sc *Scenario) (vd *Verdict) {
 	r := &c11Run{Sc: sc, Stats: map[string]int64{}, active: map[string]int{}, started: map[string]int{}, resulted: map[string]int{},
 		lastStart: map[string]time.Time{}, accepted: map[string]bool{}, faultAt: map[string]map[int]bool{}}
 	r.poolFull, r.poolIncr = int(knobOr(sc.Knobs, "poolFull", 2)), int(knobOr(sc.Knobs, "poolIncr", 4))
+	r.runOf = map[uint64]*c11Rec{}
 	for _, f := range sc.Faults {
+		if f.Kind == "reject" {
+			r.rejectSuffix = append(r.rejectSuffix, fmt.Sprint(f.Arg))
+			continue
+		}
 		if r.faultAt[f.At] == nil {
 			r.faultAt[f.At] = map[int]bool{}
 		}
@@ -125,7 +138,7 @@ func RunC11Scenario(sc *Scenario) (vd *Verdict) {
 	r.H = h
 	defer func() {
 		hooks.sched = nil
-		hooks.onFaultOn, hooks.onFault = nil, nil
+		hooks.onFaultOn, hooks.onFault, hooks.onDone = nil, nil, nil
 		_ = h.Close()
 		os.RemoveAll(h.Dir)
 	}()
@@ -315,6 +328,7 @@ func (r *c11Run) installHooks() {
 				r.fail(viol("C11", "overlap", "two-runs-of-one-job", "a run of job %s started while another run of the same job holds its slot", id))
 			}
 			r.lastActivity = time.Now()
+			r.runOf[curGid()] = &c11Rec{id: id, start: time.Now()}
 			r.active[id]++
 			r.started[id]++
 			r.lastStart[id] = time.Now()
@@ -350,12 +364,49 @@ func (r *c11Run) installHooks() {
 				r.resulted[id]++
 			}
 		case "sink.dataset", "transform.batch":
+			if name == "sink.dataset" && len(r.rejectSuffix) > 0 {
+				for _, id := range entIDs(r.H, subject) {
+					for _, sfx := range r.rejectSuffix {
+						if strings.HasSuffix(id, sfx) {
+							r.Stats["fault_sink_reject"]++
+							if rec := r.runOf[curGid()]; rec != nil {
+								rec.rejected = id
+							}
+							return fmt.Errorf("scripted sink refuses %s", shortURI(id))
+						}
+					}
+				}
+			}
 			if r.faultAt[name][int(hit)] {
 				r.Stats["fault_"+name]++
 				return errC11Injected
 			}
 		}
 		return nil
+	}
+	// the end of a run's goroutine: its outcome is settled (error handlers have amended the stored result)
+	hooks.onDone = func(owner any, name string) {
+		if name != "job.run" {
+			return
+		}
+		gid := curGid()
+		r.mu.Lock()
+		rec := r.runOf[gid]
+		delete(r.runOf, gid)
+		r.mu.Unlock()
+		if rec == nil || rec.rejected == "" {
+			return
+		}
+		for _, jr := range r.H.Full.Sched.GetJobHistory() {
+			if jr.ID == rec.id && jr.Start.Equal(rec.start) {
+				r.mu.Lock()
+				r.Stats["outcome_checks"]++
+				if jr.LastError == "" {
+					r.fail(viol("C11", "result", "failed-run-recorded-as-success", "the run of job %s started at %s had a delivery refused by the sink (entity %s), but its stored result has no error", rec.id, rec.start.Format(time.RFC3339Nano), shortURI(rec.rejected)))
+				}
+				r.mu.Unlock()
+			}
+		}
 	}
 	hooks.onFault = func(owner any, name string, hit int64) error {
 		r.mu.Lock()
